@@ -249,6 +249,9 @@ STATICS += [
 
 def gen_cond(rng, depth=0):
     r = rng.random()
+    if depth and r > 0.9:
+        # (inside a group: 'this column has no value' - given as a keyword of the group most of the time)
+        return ('f', rng.choice(['n', 's', '_d']), '=', None)
     if depth < 2 and r < 0.2:
         ops = [gen_cond(rng, depth + 1) for _ in range(rng.choice([0, 1, 1, 2, 3]))]
         if len(ops) >= 2 and rng.random() < 0.3 and not any(x[0] == 'static' and x[1] >= N_TOP for x in ops[-2:]):
@@ -331,7 +334,7 @@ def to_arg(c, rng):
         pos, kw = [], {}
         for x in c[1]:
             # operands 'column = value' may be given as keywords of the group
-            if x[0] == 'f' and x[2] == '=' and x[1] not in kw and rng.random() < 0.4:
+            if x[0] == 'f' and x[2] == '=' and x[1] not in kw and (rng.random() < 0.4 or (x[3] is None and rng.random() < 0.8)):
                 kw[x[1]] = as_param(x[1], x[3])
             else:
                 pos.append(to_arg(x, rng))
@@ -563,6 +566,9 @@ def run_case(ctx, rng):
                 if scalar:
                     call_kw['_as_scalars'] = True
                 no_key = rng.random() < 0.3
+                if no_key and not scalar and rng.random() < 0.5:
+                    scalar = True       # (the first column of that select is one that holds NULLs)
+                    call_kw['_as_scalars'] = True
                 if no_key:
                     # the select list has no unique column: rows that satisfy the filters stay that many rows even
                     # when they read the same
